@@ -16,8 +16,8 @@ ASSUMPTIONS = ["total up-scaling factor <= 2.5 (the half-pixel-centre convention
                "RGB pipelines directly; grayscale Dataset pipelines are decoded from two runs (x-coded and y-coded video) under the same torch seeds; the fit must use >= 12 intact pixels with rms residual < 0.35 px, otherwise the case is inconclusive",
                "registration tolerance: 1 output pixel, plus the explicit integer-size rounding of resizing (frac(W*scale) for apply_resizer, 0.5 px for the size matcher)"]
 SHARDS = {"quick": 8, "thorough": 16}
-N = {"quick": 1100, "thorough": 80000}
-BUDGET = {"quick": 110, "thorough": 1500}
+N = {"quick": 2200, "thorough": 560000}
+BUDGET = {"quick": 110, "thorough": 600}
 TIMEOUT = {"quick": 700, "thorough": 3000}
 SELF_SHARDED = True
 FAMILIES = ["sizematch", "resize", "pad", "crop", "geo_aug", "geo_aug", "int_aug", "crop_size", "dataset", "dataset", "erase_mixup"]
